@@ -9,9 +9,13 @@ sys.path.insert(0, os.path.join(V, "gen"))
 from claims import LEVEL_NOTE_COMMON  # noqa: E402
 import importlib  # noqa: E402
 
+# only checks the lead has run and accepted are claimed (gen/claimed.txt, one id per line)
+ACCEPTED = set(open(os.path.join(V, "gen", "claimed.txt")).read().split())
 CLAIMS = {}
 for i in range(1, 21):
     pid = "C%02d" % i
+    if pid not in ACCEPTED:
+        continue
     if os.path.exists(os.path.join(V, "gen", pid.lower() + ".py")):
         mod = importlib.import_module(pid.lower())
         if getattr(mod, "CLAIM", None):
